@@ -1,8 +1,8 @@
 CONSTANTS
-  NKeys = 4
-  MaxLen = 4
+  NKeys = 3
+  MaxLen = 3
   MaxUnsortedLen = 2
-  EmptyKeys = 0
+  EmptyKeys = 1
 SPECIFICATION Spec
 INVARIANTS MatchesRef LoopSane
 CHECK_DEADLOCK FALSE
